@@ -122,10 +122,6 @@ spif_charptr_t spiftool_chomp(spif_charptr_t s)
     __CPROVER_assume(n < VREMAIN(s));
     s[n] = 0;                                   /* still a C string */
     __CPROVER_assume(!VSPACE(s[0]));
-#ifdef U_PL_BARE_PCT
-    /* behaviour: a '%' that is not followed by a plain character */
-    __CPROVER_assume(s[0] == '%' && !VPLAINCH(s[1]));
-#endif
     vg_seq++;
     vg_t_chomp = vg_seq;
 #define VLINE_SNAP(i) vg_line[i] = ((size_t) (i) < VREMAIN(s)) ? s[i] : 0;
@@ -163,17 +159,7 @@ spif_charptr_t spiftool_get_pword(unsigned long index, const spif_charptr_t str)
 {
     __CPROVER_assert(str != NULL && __CPROVER_r_ok(str, 1), "get_pword contract: str readable");
     if (index == 1 && VPLAINCH(str[0])) return (spif_charptr_t) str;
-#if defined(VERIF_PWORD1_PRESENT)
-    /* behaviour split: word 1 exists (the behaviour "no word follows" is unit C11.parse_line_bare_pct) */
-    if (index == 1) __CPROVER_assume(str[0] != 0);
-    if (index != 1 && (str[0] == 0 || nondet_bool())) return (spif_charptr_t) NULL;
-#elif defined(VERIF_PWORD1_ABSENT)
-    /* behaviour split: no word 1 (the string is empty, blank, or a lone quote: superset of the real NULL cases
-     * among strings that do not start with a plain character) */
-    if (index == 1 || str[0] == 0 || nondet_bool()) return (spif_charptr_t) NULL;
-#else
     if (str[0] == 0 || nondet_bool()) return (spif_charptr_t) NULL;          /* the empty string has no words */
-#endif
     size_t n = strlen((const char *) str);      /* a NUL position of str (env.h) */
     size_t off = nondet_size_t();
     __CPROVER_assume(off < n);
@@ -565,21 +551,9 @@ __CPROVER_ensures(!vg_fg_mid)
 /* "every file on the stack from slot 1 up has a stream", at the ghost slot */
 #define FSFP_AT(J)      ((J) < 1 || (J) > fstate_idx || fstate[(J)].fp != NULL)
 
-/* ---- behaviour split -------------------------------------------------------------------
- * PL_EXC: the line is a %preproc directive in a file that has ALREADY been preprocessed.  On this
- * path conf.c tests the wrong `fp` (the uninitialised FILE *fp of the %preproc block shadows the
- * parameter inside SPIFCONF_PARSE_RET()) — finding C09-preproc-shadow-fp.  The general contract
- * makes no C09 promise for this behaviour and tells its caller so through the ghost vg_exc; the unit
- * C09.parse_line_preproc_again (U_PL_EXC) enforces the full postconditions on exactly this behaviour
- * (and fails: known finding).  Memory-safety obligations are never excused. */
-#define PL_PREPROC_AGAIN ((__CPROVER_old(fstate[fstate_idx].flags) & FILE_PREPROC) != 0 && vg_saw_preproc != __CPROVER_old(vg_saw_preproc))
-#ifdef U_PL_EXC
-# define PL_ENS(x)   __CPROVER_ensures(x)
-# define PL_BEHAVIOUR __CPROVER_requires((fstate[fstate_idx].flags & FILE_PREPROC) != 0)
-#else
-# define PL_ENS(x)   __CPROVER_ensures(PL_PREPROC_AGAIN || (x))
-# define PL_BEHAVIOUR
-#endif
+/* every C09 clause is an unconditional postcondition (the former excuse for "second %preproc in a preprocessed
+ * file", finding C09-preproc-shadow-fp, went away with fix 4b67cd0) */
+#define PL_ENS(x)   __CPROVER_ensures(x)
 
 #ifndef VERIF_PL_PROJECT_FSTACK
 void spifconf_parse_line(FILE *fp, spif_charptr_t buff)
@@ -594,17 +568,11 @@ __CPROVER_requires(CTXID_AT(ctx_state_idx) && CTXID_AT(ctx_state_idx ? ctx_state
 __CPROVER_requires(FSFP_AT(vg_k2) && fstate_idx >= 1 && fstate[fstate_idx].fp != NULL)
 /* sequencing ghosts: this call is for the newest complete line, at a line boundary */
 __CPROVER_requires(vg_deliverable == vg_pl_calls + 1 && !vg_fg_mid && !vg_fg_hdr)
-PL_BEHAVIOUR
 __CPROVER_assigns(__CPROVER_object_whole(buff), spifconf_vars)
 __CPROVER_assigns(ctx_state, ctx_state_idx, ctx_state_cnt, __CPROVER_object_whole(ctx_state))
 __CPROVER_assigns(fstate, fstate_idx, fstate_cnt, __CPROVER_object_whole(fstate))
 __CPROVER_assigns(VG_ALL)
 __CPROVER_frees(ctx_state, fstate)
-/* ---- the excused behaviour is reported to the caller: a ghost DEFINITION (vg_exc is written by nobody
- *      else), present only where the contract stands for the call ------------------------------- */
-#ifdef VERIF_ROLE_CALLEE_parse_line
-__CPROVER_ensures(vg_exc == (__CPROVER_old(vg_exc) || PL_PREPROC_AGAIN))
-#endif
 /* ---- E0: representation invariants are kept; one more parse_line call -------------------- */
 PL_ENS(CTXSTK_POST && FSTK_POST && fstate_idx >= 1)
 PL_ENS(CTXID_AT(ctx_state_idx) && CTXID_AT(vg_k))
@@ -693,7 +661,6 @@ __CPROVER_requires((unsigned int) fstate_idx + 1 < fstate_cnt)
 __CPROVER_assigns(__CPROVER_object_whole(buff), spifconf_vars)
 __CPROVER_assigns(fstate_idx, __CPROVER_object_whole(fstate))
 __CPROVER_assigns(vg_sp, vg_ct, vg_ev, vg_fg, vg_tf, vg_st)
-__CPROVER_ensures(vg_exc == __CPROVER_old(vg_exc) && vg_os0 == __CPROVER_old(vg_os0))
 __CPROVER_ensures(vg_saw_preproc == __CPROVER_old(vg_saw_preproc))
 __CPROVER_ensures(FSTK_POST && fstate_idx >= 1)
 __CPROVER_ensures(FSFP_AT(vg_k2))
